@@ -2521,7 +2521,7 @@ def run(chk) -> None:
             fn = enclosing_function(node) or an.entry
         chk.ob(rule, desc, ok, m=m, node=node, fn=fn, instance=inst, reason=reason)
     chk.floor("C32.R1", "return sites of find_deployment_id analysed", floors.get("returns", 0), 1)
-    chk.floor("C32.R1", "character subscripts checked for IndexError", floors.get("subscripts", 0), 2)
+    chk.floor("C32.R1", "character subscripts checked for IndexError", floors.get("subscripts", 0), 1)
     chk.floor("C32.R2", "availability-oracle consultations observed", floors.get("oracle", 0), 1)
     chk.exhaustive = True
     chk.extra["alphabet"] = [a.desc for a in an.A.atoms]
@@ -2543,4 +2543,30 @@ def run(chk) -> None:
 from pathlib import Path  # noqa: E402
 
 _P = "packages/llama-agents-control-plane/src/llama_agents/control_plane/k8s_client.py"
-TWINS: list[Twin] = []
+_SUF = '    if len(deployment_id) < 3 or force_suffix:'
+_CUT = '    deployment_id = deployment_id[:max_length].rstrip("-")'
+_ELSE = '    else:\n        to_take = max_length - randomness - 1\n        return f"{deployment_id[:to_take]}-{hex_suffix}"'
+TWINS: list[Twin] = [
+    # ---- R1 breaking
+    Twin("cut may end in a hyphen", _P, _CUT, '    deployment_id = deployment_id[:max_length]', "C32.R1"),
+    Twin("suffix room off by one (64 chars)", _P, "to_take = max_length - randomness - 1", "to_take = max_length - randomness", "C32.R1"),
+    Twin("replacement first char may be a digit", _P, 'random.choice("abcdef")', 'random.choice("abcdef0")', "C32.R1"),
+    Twin("empty name reaches [0]", _P, "    if deployment_id and not deployment_id[0].isalpha():", "    if not deployment_id[0].isalpha():", "C32.R1"),
+    Twin("underscore survives", _P, 're.sub(r"[^a-z0-9]", "-", deployment_id)', 're.sub(r"[^a-z0-9_]", "-", deployment_id)', "C32.R1"),
+    Twin("unicode word characters survive", _P, 're.sub(r"[^a-z0-9]", "-", deployment_id)', 're.sub(r"[\\W_]", "-", deployment_id)', "C32.R1"),
+    Twin("prefix added after the cut", _P, '    if deployment_id and not deployment_id[0].isalpha():\n        deployment_id = "d-" + deployment_id\n' + _CUT, _CUT + '\n    if deployment_id and not deployment_id[0].isalpha():\n        deployment_id = "d-" + deployment_id', "C32.R1"),
+    # ---- R2 breaking
+    Twin("three-letter names get a suffix", _P, _SUF, '    if len(deployment_id) < 4 or force_suffix:', "C32.R2"),
+    Twin("name not lowercased", _P, "deployment_id = name.lower()", "deployment_id = name", "C32.R2"),
+    Twin("digits dropped from the id", _P, 're.sub(r"[^a-z0-9]", "-", deployment_id)', 're.sub(r"[^a-z]", "-", deployment_id)', "C32.R2"),
+    Twin("length test dropped", _P, _SUF, '    if force_suffix:', "C32.R2"),
+    # ---- benign
+    Twin("benign: strip instead of anchored sub", _P, 'deployment_id = re.sub(r"^-|-$", "", deployment_id)', 'deployment_id = deployment_id.strip("-")', None),
+    Twin("benign: reordered suffix test", _P, _SUF, '    if force_suffix or not (len(deployment_id) >= 3):', None),
+    Twin("benign: extracted local", _P, _SUF, '    too_short = 3 > len(deployment_id)\n    if too_short or force_suffix:', None),
+    Twin("benign: regex rstrip", _P, _CUT, '    deployment_id = re.sub(r"-+$", "", deployment_id[:63])', None),
+    Twin("benign: early return in helper", _P, _ELSE, '    to_take = max_length - randomness - 1\n    return f"{deployment_id[:to_take]}-{hex_suffix}"', None),
+    Twin("benign: explicit emptiness test", _P, "    if not deployment_id:", "    if len(deployment_id) == 0:", None),
+    Twin("benign: digit membership", _P, "if hex_suffix[0].isdigit():", 'if hex_suffix[0] in "0123456789":', None),
+    Twin("benign: concatenation instead of f-string", _P, 'return f"{deployment_id[:to_take]}-{hex_suffix}"', 'return deployment_id[:to_take] + "-" + hex_suffix', None),
+]
